@@ -410,11 +410,17 @@ def lck9_no_blocking_under_lock(ctx):
         if k in seen:
             continue
         seen.add(k)
+        if k not in BLOCKING_EXCEPTIONS:
+            # a helper extracted from a tabled function (called from nowhere else) inherits its entry
+            for (h2, k2, f2) in BLOCKING_EXCEPTIONS:
+                if (h2, k2) == (k[0], k[1]) and fn in common.helper_closure(ctx.P, {f2}):
+                    k = (h2, k2, f2)
+                    break
         if k in BLOCKING_EXCEPTIONS:
             used.add(k)
             ctx.exception('LCK-9', '%s across %s in %s' % k, BLOCKING_EXCEPTIONS[k])
-            ctx.ok('LCK-9', '%s|%s|%s' % (fn, h, kind.split(':')[0]),
-                   'tabled: ' + BLOCKING_EXCEPTIONS[k], site)
+            ctx.ok('LCK-9', '%s|%s|%s' % (k[2], h, kind.split(':')[0]),
+                   'tabled: ' + BLOCKING_EXCEPTIONS[k] + ('' if fn == k[2] else ' (in its helper %s)' % fn), site)
         else:
             ctx.violation('LCK-9', '%s|%s|%s' % (fn, h, kind.split(':')[0]),
                           'guard of %s may be held across %s (%s)' % (h, kind, via), site)
